@@ -31,7 +31,7 @@ man = {
     'version': 1,
     'setup_cmd': './check --setup',
     'hooks': {'guard': 'MITXGRADERS_VERIF', 'enable': 'no hooks in /repo: the harness wraps methods at run time (export MITXGRADERS_VERIF=1 is set by ./check for uniformity)',
-              'baseline_off_cmd': 'cd /repo && /venv/bin/python -m pytest -ra -q -p no:cacheprovider --timeout=900 --continue-on-collection-errors',
+              'baseline_off_cmd': 'mkdir -p /verif/_build && cd /repo && env -u MITXGRADERS_VERIF /venv/bin/python -m pytest -ra -q -p no:cacheprovider --timeout=900 --continue-on-collection-errors --junitxml=/verif/_build/baseline.junit.xml',
               'source_commits': [], 'add_only': True},
     'engines': [{'name': 'coq-proof+tie', 'path': 'check', 'serves_properties': [c['property_id'] for c in checks],
                  'kind_free_text': 'Coq 8.16.1 development under coq/ (Lib, Gen regenerated from /repo, Model, Bridge, Proofs, Props) built by make; '
